@@ -376,6 +376,8 @@ sstat MainSolver::solve() {
     for (PTRef tr : logic.propFormulasAppearingInUF) {
         Lit l = term_mapper->getOrCreateLit(tr);
         smt_solver->addVar(var(l));
+        // The congruence closure must learn the value of this variable even if it occurs in no clause
+        smt_solver->setFrozen(var(l), true);
     }
 
     vec<FrameId> en_frames;
